@@ -32,7 +32,7 @@ CHECKS = {
  "C20": dict(
   engine="E5 cooperative scheduler (pre-emption-bounded stateless exploration)",
   technique="stateless model checking of the real code under a controlled cooperative scheduler: all schedules of 2-3 goroutine bodies up to a pre-emption bound at I/O-call granularity and all interleavings at API-call granularity; oracle on every schedule: per-goroutine observations equal the solo run, shared inputs unchanged, deep fingerprint of every package-level variable unchanged; plus a separate free-running race-detector pass of the same bodies",
-  text="7 bodies (DecodeFileSR->Info->EncodeSW, DecodeFile->Encode, encrypt, decrypt, Annex B + parameter-set/SEI/ADTS parsing, DecodeFileSR(own copy)->decrypt, DecodeFileSR(shared bytes)->decrypt) over the same shared input bytes; every pair (incl. a body with itself): all interleavings at API-call granularity (unbounded) and all schedules with <= 1 (thorough: <= 2) pre-emptions where every Read/Seek/Write and every SliceReader/SliceWriter method call is a scheduling point (~700 points per pair); triples at call granularity with <= 2 pre-emptions. 45 000 schedules quick, 1.8 million schedules / 1.6 billion scheduling points thorough. 32 package-level variables fingerprinted through generated accessors.",
+  text="8 bodies (DecodeFileSR->Info->EncodeSW, DecodeFile->Encode, encrypt, decrypt, Annex B + parameter-set/SEI/ADTS parsing, DecodeFileSR(own copy)->decrypt, DecodeFileSR(shared bytes)->decrypt) over the same shared input bytes; every pair (incl. a body with itself): all interleavings at API-call granularity (unbounded) and all schedules with <= 1 (thorough: <= 2) pre-emptions where every Read/Seek/Write and every SliceReader/SliceWriter method call is a scheduling point (~700 points per pair); triples at call granularity with <= 2 pre-emptions. 45 000 schedules quick, 1.8 million schedules / 1.6 billion scheduling points thorough. 32 package-level variables fingerprinted through generated accessors.",
   note="The scheduler sees only the points it is given; code between two points runs atomically, unsynchronised accesses in between are covered by the separate -race pass (16 goroutines, free-running), which is blind to writes done in assembly (AES). The library contains no sync primitives or go statements (re-checked by a source scan at every run). One known finding (DecodeFileSR aliasing + in-place decryption writes the shared input).",
   design="3 C20"),
  "C16": dict(
